@@ -1,6 +1,6 @@
 SPECIFICATION TraceSpec
 CONSTANTS
   HoldMax = 2
-  Strict = TRUE
+  Strict = FALSE
 POSTCONDITION TraceAccepted
 CHECK_DEADLOCK FALSE
